@@ -39,7 +39,7 @@ def patches():
 
 REVERT_OWNER = {"revert_F35": "C08", "revert_F34": "C18", "revert_F1": "C09", "revert_F2": "C09", "revert_F7": "C09", "revert_F11": "C19", "revert_F3": "C14", "revert_F4": "C12",
                 "revert_F5": "C13", "revert_F6": "C04", "revert_POL": "C04", "revert_rbfres": "C04", "revert_F23": "C11",
-                "revert_770cfc3": "C18", "revert_cf9751f": "C18", "revert_lmax0": "C18", "revert_F13": "C18", "revert_F29": "C04", "revert_F30": "C09", "revert_F31": "C12", "revert_F33": "C15", "revert_F36": "C15"}
+                "revert_770cfc3": "C18", "revert_cf9751f": "C18", "revert_lmax0": "C18", "revert_F13": "C18", "revert_F29": "C04", "revert_F30": "C09", "revert_F31": "C12", "revert_F33": "C15", "revert_F36": "C15", "revert_F37": "C15"}
 
 
 def run_one(job):
